@@ -108,7 +108,9 @@ def run_case(case: dict, st=None) -> Tuple[List[dict], str]:
         x = np.linspace(10, -3, 41)
         if case.get("xgrid") == "uneven":
             x = 10 - 13 * (np.arange(41) / 40.0) ** 1.7   # same end points, uneven spacing (only for the filter that is given x: lowess)
-        y = np.full(41, -0.7) if case["shape"] == "constant" else 0.03 * x - 0.5
+        if case.get("xlen"):
+            x = np.linspace(10, -3, int(case["xlen"]))   # boundary sizes: as many data points as the filter window, or one more
+        y = np.full(len(x), -0.7) if case["shape"] == "constant" else 0.03 * x - 0.5
         m, p = case["np_order"]
         try:
             out = _smooth_phase(case["smoothing"], m, p, 3, x, y.copy())
@@ -119,7 +121,7 @@ def run_case(case: dict, st=None) -> Tuple[List[dict], str]:
             return viols, "violation"
         err = float(np.max(np.abs(out - y)))
         if not err <= 1e-10:
-            viol(f"filter-changes-{case['shape']}-data|{case['smoothing']}" + ("|uneven-grid" if case.get("xgrid") else ""), f"{case['smoothing']} filter (m={m}, p={p}) changes exactly {case['shape']} phase data by {err:.3g}")
+            viol(f"filter-changes-{case['shape']}-data|{case['smoothing']}" + ("|uneven-grid" if case.get("xgrid") else "") + (f"|points=window+{int(case['xlen']) - m}" if case.get("xlen") else ""), f"{case['smoothing']} filter (m={m}, p={p}) changes exactly {case['shape']} phase data by {err:.3g}")
         return viols, "ok"
     if part == "window":
         from pyimpspec.analysis.zhit import weights as W
@@ -297,6 +299,8 @@ def cases(thorough: bool) -> List[dict]:
         out.append({"part": "filters", "smoothing": sm, "np_order": npo, "shape": shape})
         if sm == "lowess":
             out.append({"part": "filters", "smoothing": sm, "np_order": npo, "shape": shape, "xgrid": "uneven"})
+    for sm, npo, shape, extra in itertools.product(SMOOTHERS, [(3, 2), (5, 2), (5, 4), (7, 4), (7, 6), (9, 8)], ("constant", "linear"), (0, 1)):
+        out.append({"part": "filters", "smoothing": sm, "np_order": npo, "shape": shape, "xlen": npo[0] + extra})
     # (7) window generator
     wins = ["boxcar", "hann", "hamming", "blackman", "bartlett", "flattop", "nuttall", "cosine", "triang", "parzen", "bohman", "barthann", "blackmanharris"]
     for win, center, width in itertools.product(wins, (0.0, 1.5, 3.0), (1.0, 3.0, 4.5)):
